@@ -2,18 +2,25 @@ package main
 
 // xsync.Watchable / Future / Lazy / Map -> Juniper.Gen.Watch. Consumed by Model/Watch.lean (C18).
 //
-//   - Map: per method the form of the type assertion back to V (plain `x.(V)` panics on a nil
-//     interface, comma-ok `v, _ := x.(V)` yields the zero value), whether an `if !ok` guard returns the
-//     zero value first, and that the remaining methods forward to sync.Map unchanged;
-//   - Watchable: the classified statements of Set and Value;
+//   - Map: the WHOLE body of Load / LoadAndDelete / LoadOrStore / Swap classified into a list of `MOp`
+//     (the call into sync.Map, the `if !ok { var zero V; return zero, false }` guard, the assertion
+//     back to V with its form: plain `x.(V)` panics on a nil interface, comma-ok `v, _ = x.(V)` yields
+//     the zero value, the return) — any other statement is `.other text`; the closure that `Range`
+//     hands to sync.Map.Range classified into a list of `ROp` (assertions of key and value, and
+//     whether the closure's result IS the callback's result); that the remaining methods forward to
+//     sync.Map unchanged; the declared type of the field `m`;
+//   - Watchable: the classified statements of Set and Value; the declared types of the fields of
+//     Watchable and watchableInner (the model's atomicity assumption is about `atomic.Pointer`) and
+//     that `atomic` is the package sync/atomic;
 //   - Future: the classified statements of Fill / Wait, the select table of WaitContext with the
-//     classified arm bodies, the capacity of the channel;
+//     classified arm bodies, the capacity of the channel, the body of NewFuture, the field types;
 //   - Lazy: that it is sync.OnceValue.
 
 import (
 	"fmt"
 	"go/ast"
 	"go/token"
+	"strconv"
 	"strings"
 )
 
@@ -42,23 +49,38 @@ func init() {
 				"  | endBlock       -- }\n" +
 				"  | storeX | closeC | recvC | retX | retXNil | retZeroCtxErr | sel\n" +
 				"  | other (text : String)\n" +
+				"  deriving DecidableEq, Repr\n\n" +
+				"/-- a statement of Map.Load / LoadAndDelete / LoadOrStore / Swap, classified by gofacts -/\n" +
+				"inductive MOp where\n" +
+				"  | call                          -- x_, ok := m.m.<Method>(<the method's own arguments>)\n" +
+				"  | guardAbsent                   -- if !ok { var zero V; return zero, false }\n" +
+				"  | assertV (form : AssertForm)   -- r, _ = x_.(V)  (commaOk)  /  the x_.(V) inside `return x_.(V), ok`  (plain)\n" +
+				"  | ret                           -- return r, ok\n" +
+				"  | other (text : String)\n" +
+				"  deriving DecidableEq, Repr\n\n" +
+				"/-- a statement of the closure that Map.Range hands to sync.Map.Range, classified by gofacts -/\n" +
+				"inductive ROp where\n" +
+				"  | assertKey (form : AssertForm) -- key, _ := key_.(K)  /  key := key_.(K)  /  inline key_.(K)\n" +
+				"  | assertVal (form : AssertForm) -- value, _ := value_.(V)  / …\n" +
+				"  | retCallback                   -- return f(key, value): the closure's result is the callback's\n" +
+				"  | callDiscard                   -- f(key, value) as a statement: the callback's result is dropped\n" +
+				"  | retConst (b : Bool)           -- return true / return false\n" +
+				"  | other (text : String)\n" +
 				"  deriving DecidableEq, Repr\n", nil
 		}},
 		// typed map
-		Site{Module: mod, Pkg: pkg, Func: "Map.Load", Name: "loadAssert", Kind: Custom, Custom: assertForm("V")},
-		Site{Module: mod, Pkg: pkg, Func: "Map.Load", Name: "loadGuard", Kind: Custom, Custom: absentGuard},
-		Site{Module: mod, Pkg: pkg, Func: "Map.LoadAndDelete", Name: "loadAndDeleteAssert", Kind: Custom, Custom: assertForm("V")},
-		Site{Module: mod, Pkg: pkg, Func: "Map.LoadAndDelete", Name: "loadAndDeleteGuard", Kind: Custom, Custom: absentGuard},
-		Site{Module: mod, Pkg: pkg, Func: "Map.LoadOrStore", Name: "loadOrStoreAssert", Kind: Custom, Custom: assertForm("V")},
-		Site{Module: mod, Pkg: pkg, Func: "Map.LoadOrStore", Name: "loadOrStoreGuard", Kind: Custom, Custom: absentGuard},
-		Site{Module: mod, Pkg: pkg, Func: "Map.Swap", Name: "swapAssert", Kind: Custom, Custom: assertForm("V")},
-		Site{Module: mod, Pkg: pkg, Func: "Map.Swap", Name: "swapGuard", Kind: Custom, Custom: absentGuard},
-		Site{Module: mod, Pkg: pkg, Func: "Map.Range", Name: "rangeValueAssert", Kind: Custom, Custom: assertForm("V")},
-		Site{Module: mod, Pkg: pkg, Func: "Map.Range", Name: "rangeKeyAssert", Kind: Custom, Custom: assertForm("K")},
-		Site{Module: mod, Pkg: pkg, Func: "Map.Load", Name: "loadCalls", Kind: Present, Text: "value_, ok := m.m.Load(key)"},
-		Site{Module: mod, Pkg: pkg, Func: "Map.LoadAndDelete", Name: "loadAndDeleteCalls", Kind: Present, Text: "value_, ok := m.m.LoadAndDelete(key)"},
-		Site{Module: mod, Pkg: pkg, Func: "Map.LoadOrStore", Name: "loadOrStoreCalls", Kind: Present, Text: "actual_, loaded := m.m.LoadOrStore(key, value)"},
-		Site{Module: mod, Pkg: pkg, Func: "Map.Swap", Name: "swapCalls", Kind: Present, Text: "previousUntyped, loaded := m.m.Swap(key, value)"},
+		Site{Module: mod, Pkg: pkg, Func: "Map.Load", Name: "loadBody", Kind: Custom,
+			Custom: mapBody(mapTexts{"value_,ok:=m.m.Load(key)", "!ok", "value,_=value_.(V)", "returnvalue,ok", "returnvalue_.(V),ok"})},
+		Site{Module: mod, Pkg: pkg, Func: "Map.LoadAndDelete", Name: "loadAndDeleteBody", Kind: Custom,
+			Custom: mapBody(mapTexts{"value_,ok:=m.m.LoadAndDelete(key)", "!ok", "value,_=value_.(V)", "returnvalue,ok", "returnvalue_.(V),ok"})},
+		Site{Module: mod, Pkg: pkg, Func: "Map.LoadOrStore", Name: "loadOrStoreBody", Kind: Custom,
+			Custom: mapBody(mapTexts{"actual_,loaded:=m.m.LoadOrStore(key,value)", "!loaded", "actual,_=actual_.(V)", "returnactual,loaded", "returnactual_.(V),loaded"})},
+		Site{Module: mod, Pkg: pkg, Func: "Map.Swap", Name: "swapBody", Kind: Custom,
+			Custom: mapBody(mapTexts{"previousUntyped,loaded:=m.m.Swap(key,value)", "!loaded", "previous,_=previousUntyped.(V)", "returnprevious,loaded", "returnpreviousUntyped.(V),loaded"})},
+		Site{Module: mod, Pkg: pkg, Func: "Map.Range", Name: "rangeCalls", Kind: Custom, Custom: rangeCalls},
+		Site{Module: mod, Pkg: pkg, Func: "Map.Range", Name: "rangeBody", Kind: Custom, Custom: rangeBody},
+		Site{Module: mod, Pkg: pkg, Name: "mapFields", Kind: Custom, Custom: fieldTypes("Map")},
+		Site{Module: mod, Pkg: pkg, Name: "mapImportsSync", Kind: Custom, Custom: importsPlain("Map", "sync")},
 		Site{Module: mod, Pkg: pkg, Func: "Map.Store", Name: "storeForwards", Kind: Custom, Custom: wholeBody("m.m.Store(key,value)")},
 		Site{Module: mod, Pkg: pkg, Func: "Map.Delete", Name: "deleteForwards", Kind: Custom, Custom: wholeBody("m.m.Delete(key)")},
 		Site{Module: mod, Pkg: pkg, Func: "Map.CompareAndSwap", Name: "casForwards", Kind: Custom, Custom: wholeBody("returnm.m.CompareAndSwap(key,old,new)")},
@@ -66,6 +88,9 @@ func init() {
 		// Watchable
 		Site{Module: mod, Pkg: pkg, Func: "Watchable.Set", Name: "setOps", Kind: Custom, Custom: watchOps},
 		Site{Module: mod, Pkg: pkg, Func: "Watchable.Value", Name: "valueOps", Kind: Custom, Custom: watchOps},
+		Site{Module: mod, Pkg: pkg, Name: "watchableFields", Kind: Custom, Custom: fieldTypes("Watchable")},
+		Site{Module: mod, Pkg: pkg, Name: "watchableInnerFields", Kind: Custom, Custom: fieldTypes("watchableInner")},
+		Site{Module: mod, Pkg: pkg, Name: "watchableImportsAtomic", Kind: Custom, Custom: importsPlain("Watchable", "sync/atomic")},
 		// Future
 		Site{Module: mod, Pkg: pkg, Func: "NewFuture", Name: "futureChanArgs", Kind: Custom, Custom: func(c *Ctx, s *Site) (string, error) {
 			fd, err := c.FindFunc(s.Pkg, s.Func)
@@ -78,6 +103,8 @@ func init() {
 			}
 			return fmt.Sprintf("/-- number of arguments of the `make(chan …)` in `NewFuture` (1 = unbuffered) -/\ndef %s : Nat := %d\n", s.Name, len(n.(*ast.CallExpr).Args)), nil
 		}},
+		Site{Module: mod, Pkg: pkg, Func: "NewFuture", Name: "newFutureBody", Kind: Custom, Custom: wholeBody("return&Future[T]{c:make(chanstruct{}),}")},
+		Site{Module: mod, Pkg: pkg, Name: "futureFields", Kind: Custom, Custom: fieldTypes("Future")},
 		Site{Module: mod, Pkg: pkg, Func: "Future.Fill", Name: "fillOps", Kind: Custom, Custom: watchOps},
 		Site{Module: mod, Pkg: pkg, Func: "Future.Wait", Name: "futureWaitOps", Kind: Custom, Custom: watchOps},
 		Site{Module: mod, Pkg: pkg, Func: "Future.WaitContext", Name: "waitContextOps", Kind: Custom, Custom: watchOps},
@@ -88,72 +115,249 @@ func init() {
 	)
 }
 
-// assertForm reports how the function asserts an interface value back to type parameter tp.
-func assertForm(tp string) func(c *Ctx, s *Site) (string, error) {
+// mapTexts: the (space-free) statement texts of one typed-map method that mapBody recognises.
+type mapTexts struct{ call, guardCond, assertCommaOk, ret, retPlain string }
+
+// mapBody classifies EVERY top-level statement of a typed-map method body.
+func mapBody(tx mapTexts) func(c *Ctx, s *Site) (string, error) {
 	return func(c *Ctx, s *Site) (string, error) {
 		fd, err := c.FindFunc(s.Pkg, s.Func)
 		if err != nil {
 			return "", err
 		}
-		forms := map[string]int{}
-		commaOk := map[*ast.TypeAssertExpr]bool{}
-		ast.Inspect(fd.Body, func(n ast.Node) bool {
-			switch x := n.(type) {
-			case *ast.AssignStmt:
-				if len(x.Lhs) == 2 && len(x.Rhs) == 1 {
-					if ta, ok := x.Rhs[0].(*ast.TypeAssertExpr); ok {
-						commaOk[ta] = true
-					}
-				}
-			case *ast.ValueSpec:
-				if len(x.Names) == 2 && len(x.Values) == 1 {
-					if ta, ok := x.Values[0].(*ast.TypeAssertExpr); ok {
-						commaOk[ta] = true
-					}
-				}
-			case *ast.TypeAssertExpr:
-				if x.Type != nil && c.Text(x.Type) == tp {
-					if commaOk[x] {
-						forms["commaOk"]++
-					} else {
-						forms["plain"]++
-					}
+		var ops []string
+		for _, st := range fd.Body.List {
+			txt := c.Text(st)
+			switch {
+			case txt == tx.call:
+				ops = append(ops, ".call")
+			case txt == tx.assertCommaOk:
+				ops = append(ops, ".assertV .commaOk")
+			case txt == tx.ret:
+				ops = append(ops, ".ret")
+			case txt == tx.retPlain:
+				ops = append(ops, ".assertV .plain", ".ret")
+			default:
+				if ifs, ok := st.(*ast.IfStmt); ok && ifs.Init == nil && ifs.Else == nil && c.Text(ifs.Cond) == tx.guardCond &&
+					len(ifs.Body.List) == 2 && c.Text(ifs.Body.List[0]) == "varzeroV" && c.Text(ifs.Body.List[1]) == "returnzero,false" {
+					ops = append(ops, ".guardAbsent")
+				} else {
+					ops = append(ops, ".other "+leanString(c.Pretty(st)))
 				}
 			}
-			return true
-		})
-		form := ".absent"
-		switch {
-		case forms["plain"] > 0:
-			form = ".plain"
-		case forms["commaOk"] > 0:
-			form = ".commaOk"
 		}
-		return fmt.Sprintf("/-- how `%s` asserts the stored interface value back to `%s` -/\ndef %s : AssertForm := %s\n", s.Func, tp, s.Name, form), nil
+		return fmt.Sprintf("/-- statements of `%s`, classified (`.call` = `%s`) -/\ndef %s : List MOp := [%s]\n", s.Func, tx.call, s.Name, strings.Join(ops, ", ")), nil
 	}
 }
 
-// absentGuard: the function starts (after the call) with `if !ok { var zero V; return zero, false }`.
-func absentGuard(c *Ctx, s *Site) (string, error) {
+// rangeClosure: the body of Map.Range must be the single statement `m.m.Range(func(key_, value_ interface{}) bool {…})`;
+// returns the closure.
+func rangeClosure(c *Ctx, s *Site) (*ast.FuncLit, bool, error) {
 	fd, err := c.FindFunc(s.Pkg, s.Func)
+	if err != nil {
+		return nil, false, err
+	}
+	var lit *ast.FuncLit
+	ast.Inspect(fd.Body, func(n ast.Node) bool {
+		if l, ok := n.(*ast.FuncLit); ok && lit == nil {
+			lit = l
+			return false
+		}
+		return true
+	})
+	if lit == nil {
+		return nil, false, nil
+	}
+	exact := false
+	if len(fd.Body.List) == 1 {
+		if es, ok := fd.Body.List[0].(*ast.ExprStmt); ok {
+			if call, ok := es.X.(*ast.CallExpr); ok && c.Text(call.Fun) == "m.m.Range" && len(call.Args) == 1 && call.Args[0] == ast.Expr(lit) {
+				p := fd.Type.Params.List
+				exact = c.Text(lit.Type) == "func(key_,value_interface{})bool" && len(p) == 1 && len(p[0].Names) == 1 &&
+					p[0].Names[0].Name == "f" && c.Text(p[0].Type) == "func(keyK,valueV)bool"
+			}
+		}
+	}
+	return lit, exact, nil
+}
+
+func rangeCalls(c *Ctx, s *Site) (string, error) {
+	_, exact, err := rangeClosure(c, s)
 	if err != nil {
 		return "", err
 	}
-	found := false
-	for _, st := range fd.Body.List {
-		ifs, ok := st.(*ast.IfStmt)
-		if !ok || ifs.Else != nil {
-			continue
-		}
-		cond := c.Text(ifs.Cond)
-		if cond != "!ok" && cond != "!loaded" {
-			continue
-		}
-		if len(ifs.Body.List) == 2 && c.Text(ifs.Body.List[0]) == "varzeroV" && c.Text(ifs.Body.List[1]) == "returnzero,false" {
-			found = true
+	return fmt.Sprintf("/-- the body of `%s` is exactly `m.m.Range(func(key_, value_ interface{}) bool { … })` and its parameter is `f func(key K, value V) bool` -/\ndef %s : Bool := %v\n", s.Func, s.Name, exact), nil
+}
+
+// rangeBody classifies every statement of the closure handed to sync.Map.Range.
+func rangeBody(c *Ctx, s *Site) (string, error) {
+	lit, _, err := rangeClosure(c, s)
+	if err != nil {
+		return "", err
+	}
+	if lit == nil {
+		return fmt.Sprintf("/-- `%s` hands no closure to sync.Map.Range -/\ndef %s : List ROp := [.other \"no closure\"]\n", s.Func, s.Name), nil
+	}
+	// names of the closure's two parameters (key_, value_ today; key, value before the fix of D7)
+	var pn []string
+	for _, f := range lit.Type.Params.List {
+		for _, n := range f.Names {
+			pn = append(pn, n.Name)
 		}
 	}
-	return fmt.Sprintf("/-- `%s` returns `(zero, false)` early when the key is absent -/\ndef %s : Bool := %v\n", s.Func, s.Name, found), nil
+	if len(pn) != 2 {
+		pn = []string{"key_", "value_"}
+	}
+	kAssert, vAssert := pn[0]+".(K)", pn[1]+".(V)"
+	var ops []string
+	// an argument of the call of f: the asserted local, or an inline plain assertion of the parameter
+	arg := func(x ast.Expr, local, inline, op string) (string, bool) {
+		switch c.Text(x) {
+		case local:
+			if local == pn[0] || local == pn[1] {
+				return "", false // the raw interface parameter, not an asserted local
+			}
+			return "", true
+		case inline:
+			return op + " .plain", true
+		}
+		return "", false
+	}
+	callF := func(x ast.Expr) ([]string, bool) {
+		call, ok := x.(*ast.CallExpr)
+		if !ok || c.Text(call.Fun) != "f" || len(call.Args) != 2 || call.Ellipsis.IsValid() {
+			return nil, false
+		}
+		a, ok1 := arg(call.Args[0], "key", kAssert, ".assertKey")
+		b, ok2 := arg(call.Args[1], "value", vAssert, ".assertVal")
+		if !ok1 || !ok2 {
+			return nil, false
+		}
+		var pre []string
+		if a != "" {
+			pre = append(pre, a)
+		}
+		if b != "" {
+			pre = append(pre, b)
+		}
+		return pre, true
+	}
+	for _, st := range lit.Body.List {
+		txt := c.Text(st)
+		switch {
+		case txt == "key,_:="+kAssert:
+			ops = append(ops, ".assertKey .commaOk")
+			continue
+		case txt == "key:="+kAssert:
+			ops = append(ops, ".assertKey .plain")
+			continue
+		case txt == "value,_:="+vAssert:
+			ops = append(ops, ".assertVal .commaOk")
+			continue
+		case txt == "value:="+vAssert:
+			ops = append(ops, ".assertVal .plain")
+			continue
+		case txt == "returntrue":
+			ops = append(ops, ".retConst true")
+			continue
+		case txt == "returnfalse":
+			ops = append(ops, ".retConst false")
+			continue
+		}
+		if rs, ok := st.(*ast.ReturnStmt); ok && len(rs.Results) == 1 {
+			if pre, ok := callF(rs.Results[0]); ok {
+				ops = append(ops, pre...)
+				ops = append(ops, ".retCallback")
+				continue
+			}
+		}
+		if es, ok := st.(*ast.ExprStmt); ok {
+			if pre, ok := callF(es.X); ok {
+				ops = append(ops, pre...)
+				ops = append(ops, ".callDiscard")
+				continue
+			}
+		}
+		ops = append(ops, ".other "+leanString(c.Pretty(st)))
+	}
+	return fmt.Sprintf("/-- statements of the closure `%s` hands to sync.Map.Range, classified -/\ndef %s : List ROp := [%s]\n", s.Func, s.Name, strings.Join(ops, ", ")), nil
+}
+
+// fieldTypes: the fields of a struct type with their declared types, in order.
+func fieldTypes(typ string) func(c *Ctx, s *Site) (string, error) {
+	return func(c *Ctx, s *Site) (string, error) {
+		st, err := c.findStruct(s.Pkg, typ)
+		if err != nil {
+			return "", err
+		}
+		var rows []string
+		for _, f := range st.Fields.List {
+			t := c.Pretty(f.Type)
+			if len(f.Names) == 0 {
+				rows = append(rows, fmt.Sprintf("(%s, %s)", leanString("<embedded>"), leanString(t)))
+			}
+			for _, n := range f.Names {
+				rows = append(rows, fmt.Sprintf("(%s, %s)", leanString(n.Name), leanString(t)))
+			}
+		}
+		return fmt.Sprintf("/-- fields of `type %s struct` with their declared types -/\ndef %s : List (String × String) := [%s]\n", typ, s.Name, strings.Join(rows, ", ")), nil
+	}
+}
+
+// importsPlain: the file that declares struct type typ imports path without renaming it, and declares
+// no package-level identifier that could shadow the package name.
+func importsPlain(typ, path string) func(c *Ctx, s *Site) (string, error) {
+	return func(c *Ctx, s *Site) (string, error) {
+		files, err := c.files(s.Pkg)
+		if err != nil {
+			return "", err
+		}
+		base := path[strings.LastIndex(path, "/")+1:]
+		found, ok := false, false
+		shadow := false
+		for _, f := range files {
+			declares := false
+			for _, d := range f.Decls {
+				switch x := d.(type) {
+				case *ast.GenDecl:
+					for _, sp := range x.Specs {
+						switch y := sp.(type) {
+						case *ast.TypeSpec:
+							if y.Name.Name == typ {
+								declares = true
+							}
+							if y.Name.Name == base {
+								shadow = true
+							}
+						case *ast.ValueSpec:
+							for _, n := range y.Names {
+								if n.Name == base {
+									shadow = true
+								}
+							}
+						}
+					}
+				case *ast.FuncDecl:
+					if x.Recv == nil && x.Name.Name == base {
+						shadow = true
+					}
+				}
+			}
+			if !declares {
+				continue
+			}
+			found = true
+			for _, im := range f.Imports {
+				if im.Path.Value == strconv.Quote(path) && im.Name == nil {
+					ok = true
+				}
+			}
+		}
+		if !found {
+			return "", fmt.Errorf("type %s not found in %s", typ, s.Pkg)
+		}
+		return fmt.Sprintf("/-- the file declaring `%s` imports %q under its own name (and the package declares no `%s`) -/\ndef %s : Bool := %v\n", typ, path, base, s.Name, ok && !shadow), nil
+	}
 }
 
 // wholeBody: the function body is exactly the one statement with the given (space-free) text.
